@@ -881,6 +881,46 @@ func (env *Env) call(n *ast.CallExpr) (Val, error) {
 			return Val{T: a.T, L: []string{sIte(sLe(a.one(), b.one()), a.one(), b.one())}}, nil
 		}
 		return Val{T: a.T, L: []string{sIte(sLe(a.one(), b.one()), b.one(), a.one())}}, nil
+	case "ret":
+		// ret(Name, n [, k]): (the k-th result of) the n-th call of a function or method called Name in this function;
+		// independent of what the local variable holding it is called
+		id, ok := n.Args[0].(*ast.Ident)
+		if !ok || len(n.Args) < 2 {
+			return Val{}, fmt.Errorf("ret(Name, n [, k])")
+		}
+		lit, ok := n.Args[1].(*ast.BasicLit)
+		if !ok {
+			return Val{}, fmt.Errorf("ret(Name, n [, k])")
+		}
+		ord, _ := strconv.Atoi(lit.Value)
+		call := fx.callRets[fmt.Sprintf("%s@%d", id.Name, ord)]
+		if call == nil {
+			return Val{}, fmt.Errorf("unknown identifier %q (no %d-th call of that name on a path to this point)", id.Name, ord)
+		}
+		if _, have := fx.vals[call]; !have {
+			return Val{}, fmt.Errorf("unknown identifier %q (call %d not executed yet)", id.Name, ord)
+		}
+		if fx.curBlock != nil && call.Block() != fx.curBlock && !call.Block().Dominates(fx.curBlock) {
+			r, done := fx.reach[call.Block()]
+			if !done || fx.localGuards == nil {
+				return Val{}, fmt.Errorf("unknown identifier %q (call %d is not on every path to this point)", id.Name, ord)
+			}
+			*fx.localGuards = append(*fx.localGuards, r)
+		}
+		v := fx.val(call)
+		if len(n.Args) == 3 {
+			kl, ok := n.Args[2].(*ast.BasicLit)
+			if !ok {
+				return Val{}, fmt.Errorf("ret(Name, n, k)")
+			}
+			k, _ := strconv.Atoi(kl.Value)
+			rs := splitResults(fx, v, call.Common().Signature().Results())
+			if k < 0 || k >= len(rs) {
+				return Val{}, fmt.Errorf("ret: no result %d", k)
+			}
+			return rs[k], nil
+		}
+		return v, nil
 	case "cellof":
 		// cellof(x): the current content of the address-taken local variable x
 		id, ok := n.Args[0].(*ast.Ident)
@@ -889,7 +929,7 @@ func (env *Env) call(n *ast.CallExpr) (Val, error) {
 		}
 		for _, b := range fx.fn.Blocks {
 			for _, in := range b.Instrs {
-				if a, ok := in.(*ssa.Alloc); ok && a.Comment == id.Name {
+				if a, ok := in.(*ssa.Alloc); ok && (a.Comment == id.Name || (fx.rename[id.Name] != "" && a.Comment == fx.rename[id.Name])) {
 					pv, have := fx.vals[a]
 					if !have {
 						return Val{}, fmt.Errorf("unknown identifier %q (cell not allocated yet)", id.Name)
